@@ -218,7 +218,22 @@ func buildModel(l *Loaded) (*Model, error) {
 				vs := sp.(*ast.ValueSpec)
 				for i, nm := range vs.Names {
 					v, _ := m.Info.Defs[nm].(*types.Var)
-					if v == nil || !strings.Contains(v.Type().String(), "sync.Pool") {
+					if v == nil {
+						continue
+					}
+					// the pool table: a package-level array/slice whose elements carry a constructor
+					// func returning new(<node layout>); its element type is checked by R30
+					isPool := strings.Contains(v.Type().String(), "sync.Pool")
+					if !isPool && i < len(vs.Values) {
+						if cl, ok := vs.Values[i].(*ast.CompositeLit); ok {
+							for _, el := range cl.Elts {
+								if poolNewType(m.Info, el) != nil {
+									isPool = true
+								}
+							}
+						}
+					}
+					if !isPool {
 						continue
 					}
 					m.PoolVar = v
